@@ -351,6 +351,12 @@ theorem retained_changes_only_by_publish_or_will (b : B) (st : Step) :
 theorem reachable_retained_ok (cfg : Cfg) (steps : List Step) : RetOK (runB { cfg := cfg } steps).retained :=
   reachable_retOK cfg steps
 
+/-- 6‴. The hypothesis "the connection has a session" of `subscribe_replay_exact` (and of `Accepted`) holds for every
+    online connection of every reachable state (C05: `WF`). -/
+theorem online_has_session (cfg : Cfg) (steps : List Step) (conn : String) (c : Cli)
+    (hc : (runB { cfg := cfg } steps).cli? conn = some c) : ∃ s, (runB { cfg := cfg } steps).sess? c.cid = some s :=
+  Option.isSome_iff_exists.1 ((reachable_wf cfg steps).online c (cli?_some hc).1)
+
 /-! ### non-vacuity -/
 
 /-- v5 client "p" on connection "a" with an alias bound to "t" (by a first retained PUBLISH), v5 subscriber "s" on "c" -/
